@@ -377,8 +377,13 @@ def _signature_table(ctx):
 # closing tactic of the ties: the shared `se_close`, then (for decision trees whose shape differs from the model's:
 # conditional expressions instead of min / max, negated comparisons) a full case split with arithmetic at the leaves
 _CLOSE = ("first\n    | se_close\n"
-          "    | (simp only [Rat.min_def, Rat.max_def]; repeat' split; all_goals (try simp); all_goals (try grind))\n"
-          "    | (simp only [Option.map]; repeat' split; all_goals (try simp); all_goals (try grind))")
+          # (`repeat'` takes a tactic *sequence*: it must be parenthesised, and every alternative but the last ends
+          # in `done`, so that an alternative that leaves goals falls through to the next one)
+          "    | (simp only [Rat.min_def, Rat.max_def]; (repeat' split); all_goals (try simp); all_goals (try grind); done)\n"
+          "    | (simp only [Option.map]; (repeat' split); all_goals (try simp); all_goals (try grind); done)\n"
+          # `min` / `max` written the other way round in the code (`b if b <= a else a`): unfold the model's likewise
+          "    | (simp only [SE.Intervals.min_flip, SE.Intervals.max_flip]; (repeat' split); all_goals (try simp); "
+          "all_goals (try grind))")
 _UNF = "SE.Intervals.intervalsOverlap SE.Intervals.threshold SE.Intervals.thrOverlap"
 _UNFR = "SE.Intervals.intervalsOverlapR SE.Intervals.thresholdR"
 
